@@ -357,7 +357,7 @@ func cli(t *testing.T, env *report.Env, rep *report.Report, base string) {
 		n = 4
 	}
 	sec := rep.Add(&report.Section{Name: fmt.Sprintf("cli-put-all-flag-combinations-len%d", n), Engine: "enum", Exhaustive: true, Extra: map[string]int64{},
-		Rule: "the setec binary built from the working tree, against a loopback server: every combination of --verbatim, --trim-space, --empty-ok × source {--from-file, pipe} × every input over {20,0A,61,FF} up to the length bound and over the atoms {U+3000, U+00A0, U+2003, 20, 61, FF} up to 2 (quick) / 3 (thorough) atoms, plus binary and text values of 65535, 65537, 2^20-1, 2^20, 2^20+1 and 2^21+17 bytes through file and pipe; compared with a reference of the stated policy (value received by the server, exit status, and zero requests on refusal); non-trivial = inputs with surrounding whitespace or empty"})
+		Rule: "the setec binary built from the working tree, against a loopback server: every combination of --verbatim, --trim-space, --empty-ok × source {--from-file, pipe} × every input over {20,0A,61,FF} up to the length bound and over the atoms {U+3000, U+00A0, U+2003, 20, 61, FF} up to 2 (quick) / 3 (thorough) atoms, plus binary and text values of 65535, 65537, 2^20-1, 2^20, 2^20+1 and 2^21+17 bytes through file and pipe, and values that are valid UTF-8 with surrounding whitespace for 510 … 65534 bytes and only then stop being UTF-8, under every flag combination; compared with a reference of the stated policy (value received by the server, exit status, and zero requests on refusal); non-trivial = inputs with surrounding whitespace or empty"})
 	bin := filepath.Join(base, "setec")
 	args := []string{"build", "-o", bin}
 	if mf := os.Getenv("VERIF_MODFILE"); mf != "" {
@@ -421,6 +421,19 @@ func cli(t *testing.T, env *report.Env, rep *report.Report, base string) {
 		for _, in := range [][]byte{bin, txt} {
 			for _, ff := range []bool{true, false} {
 				jobs = append(jobs, job{in: in, fromFile: ff, id: id})
+				id++
+			}
+		}
+	}
+	// values that look like text for a long stretch and are not: valid UTF-8 with surrounding whitespace for
+	// n bytes (n around the window sizes content sniffers use), then bytes that are not UTF-8, then a newline;
+	// such a value is not text, so every flag combination must send it as it is
+	for _, n := range []int{510, 1022, 4094, 7998, 8190, 32766, 65534} {
+		in := append([]byte(" "), bytes.Repeat([]byte("a"), n)...)
+		in = append(in, 0xc3, 0x28, 0xff, '\n')
+		for m := 0; m < 8; m++ {
+			for _, ff := range []bool{true, false} {
+				jobs = append(jobs, job{in: in, verb: m&1 != 0, trim: m&2 != 0, empty: m&4 != 0, fromFile: ff, id: id})
 				id++
 			}
 		}
